@@ -2,7 +2,8 @@
 //
 // Explicit enumeration of operation histories on a live engine with two instrumented in-memory
 // loaders (L1 timestamp-aware, L2 plain or — arrangement "ts2" — timestamp-aware as well; registered
-// separately in either order, or behind a ChainLoader). After every Load/Render the result, the loaders' read counters and (for a missing name) the cache listing are
+// separately in either order, or behind a ChainLoader in either order; in some arrangements L1 is a real
+// FileSystemLoader on a scratch directory, also inside the ChainLoader). After every Load/Render the result, the loaders' read counters and (for a missing name) the cache listing are
 // compared with a small reference state machine transcribed from the property statement.
 //
 //	phase A  every history over the alphabet up to the depth bound, no pruning (each history is
@@ -304,6 +305,36 @@ type world struct {
 	ver    int
 	clock  int64
 	kinds  map[string]int64
+	// labelling only (real FileSystemLoader inside a ChainLoader): the file loader has located the name /
+	// the file was removed after that and the loaders have not been read for the name since
+	located, gone map[string]bool
+}
+
+// mark labels the first lookup that reads the loaders after a file, which the FileSystemLoader inside
+// the ChainLoader had located, was removed: that call already has to fall through to the next loader
+// that has the name (or to be not-found). The label only splits the kind counters; the demands are
+// those of modelGet.
+func (w *world) mark(n string, ex *expect) {
+	if !w.v.chain() || !w.v.realFS() || ex.dontcare {
+		return
+	}
+	switch ex.kind {
+	case "reread-cache-off", "notfound-cache-off", "fresh", "notfound":
+		if w.gone[n] {
+			delete(w.gone, n)
+			if ex.found {
+				ex.kind += "-falls-through-first-call-after-file-removed"
+			} else {
+				ex.kind += "-first-call-after-file-removed"
+			}
+		}
+	}
+	if ex.found && strings.HasSuffix(ex.tag, "@L1") {
+		if w.located == nil {
+			w.located = map[string]bool{}
+		}
+		w.located[n] = true
+	}
 }
 
 func newWorld(v variant) *world { return newWorldOpt(v, true) }
@@ -574,6 +605,7 @@ func (w *world) apply(o op) string {
 		if w.e == nil {
 			return ""
 		}
+		w.mark(o.n, &ex)
 		out, err := w.get(o)
 		w.kinds[ex.kind]++
 		if ex.dontcare {
@@ -590,6 +622,9 @@ func (w *world) apply(o op) string {
 			return ""
 		}
 		loads0, cons0 := w.st.loads["n1"], w.st.consult["n1"]
+		if exOuter.found {
+			w.mark("n1", &ex)
+		}
 		out, err := w.get(o)
 		w.kinds["nested-"+ex.kind]++
 		if exOuter.dontcare || !exOuter.found || ex.dontcare {
@@ -627,6 +662,7 @@ func (w *world) apply(o op) string {
 		w.cached[o.n] = entry{src, orgReg, 0}
 		delete(w.dirty, o.n)
 	case opMod1:
+		delete(w.gone, o.n) // the file is there again
 		w.ver++
 		w.clock++
 		w.l1.src[o.n], w.l1.mt[o.n] = fmt.Sprintf("v%d@L1", w.ver), w.clock
@@ -646,6 +682,13 @@ func (w *world) apply(o op) string {
 		w.l1.mt[o.n] = w.clock
 		w.l1.write(o.n)
 	case opDel1:
+		if w.located[o.n] {
+			if w.gone == nil {
+				w.gone = map[string]bool{}
+			}
+			w.gone[o.n] = true
+			delete(w.located, o.n)
+		}
 		delete(w.l1.src, o.n)
 		delete(w.l1.mt, o.n)
 		w.l1.write(o.n)
@@ -1171,7 +1214,9 @@ func plans(thorough bool) []plan {
 		for _, v := range inChain {
 			ps = append(ps, plan{v, 4, 2, false})
 		}
-		ps = append(ps, plan{variant{"sep", "seeded", "str"}, 5, 3, false})
+		// the one depth-5 pass (two fifths of all histories of the tier) comes after phase B, so that a
+		// deadline on an overloaded machine cuts it and not the smaller families
+		ps = append(ps, plan{variant{"sep", "seeded", "str"}, 5, 3, true})
 	}
 	return ps
 }
@@ -1206,13 +1251,28 @@ func bfsPlans(thorough bool) []bfsPlan {
 		{variant{"rev", "late", "str"}, 2400},
 		{variant{"ts2", "late", "str"}, 3200},
 		{variant{"revfs", "late", "str"}, 600},
-		// every state within four operations of the seeded start state, and then some
-		{variant{"chainfs", "seeded", "str"}, 2000},
+		// every state within four operations of the seeded start state (2 408) and then some
+		{variant{"chainfs", "seeded", "str"}, 2500},
 		{variant{"chainfsrev", "late", "str"}, 600},
 	}
 }
 
 const blockSize = 32
+
+// only: C15_ONLY=chainfs,chainfsrev restricts a run to the named loader arrangements (a debugging aid:
+// the case keys are unchanged, the run is simply a part of the full enumeration).
+func only(v variant) bool {
+	sel := os.Getenv("C15_ONLY")
+	if sel == "" {
+		return true
+	}
+	for _, a := range strings.Split(sel, ",") {
+		if a == v.Arr {
+			return true
+		}
+	}
+	return false
+}
 
 func main() {
 	vlib.Main(vlib.Spec{
@@ -1220,7 +1280,8 @@ func main() {
 		Level: "model_checking",
 		Rule: "phase A: every history over the 19-letter alphabet (load/render/render-through-include, register, modify in L1/L2, touch, delete, the six configuration switches; " +
 			"two names; a 20th letter, touch in L2, where L2 reports timestamps too) up to the depth bound, for each loader arrangement (timestamp-aware L1 then plain L2 / ChainLoader / followed by empty built-in loaders / real FileSystemLoader with controlled modification times / " +
-			"plain L2 registered BEFORE the timestamp-aware L1, in memory and as a real FileSystemLoader / two timestamp-aware loaders), start state (seeded / empty loaders / only the loader registered last has the name) and registration API " +
+			"plain L2 registered BEFORE the timestamp-aware L1, in memory and as a real FileSystemLoader / two timestamp-aware loaders / " +
+			"a real FileSystemLoader INSIDE a ChainLoader in front of, and behind, the in-memory loader that holds the same names (delL1 removes the file, modL1 re-creates it)), start state (seeded / empty loaders / only the loader registered last has the name) and registration API " +
 			"(RegisterString / RegisterTemplate / RegisterCompiledTemplate), each replayed on a fresh engine and compared step by step with the reference machine; " +
 			"phase B: breadth-first search from the start state over the reference states (versions and timestamps reduced to ranks), to closure in the thorough tier. " +
 			"Non-trivial = the explored subtree contains at least one Load/Render whose result the statement determines",
@@ -1228,7 +1289,7 @@ func main() {
 			"histories longer than the depth bound are covered only by phase B, which assumes that the engine's cache state is a function of the reference state and the cache listing",
 			"left open by the statement, not demanded: registration while the cache is off; Load of a registered name while the cache is off; with auto-reload on, an entry cached from a loader without timestamps (L2, ChainLoader) whose source changed or that an earlier loader now shadows, and an entry cached from a timestamp-aware loader that is unchanged there while an earlier loader has gained the name (as soon as that loader reports a strictly newer time or loses the name, the reload in registration order is demanded)",
 			"timestamps only move forward and every content change comes with a newer timestamp (a change without a newer timestamp is unobservable by design)",
-			"two names plus one fixed including template, two loaders (plus empty built-in loaders in one arrangement); the ChainLoader is only used with the timestamp-aware loader first",
+			"two names plus one fixed including template, two loaders (plus empty built-in loaders in one arrangement); one ChainLoader of two loaders, in both orders",
 		},
 		QuickDeadline:    150,
 		ThoroughDeadline: 840,
@@ -1254,13 +1315,19 @@ func run(t *vlib.T) {
 	phaseB := func() {
 		for _, bp := range bfsPlans(t.Thorough()) {
 			bp := bp
+			if !only(bp.v) {
+				continue
+			}
+			if t.Stopped() {
+				return // past the deadline: do not enumerate reference states for cases that will not run
+			}
 			hists, closed := closureOf(bp.v, bp.maxStates)
 			if closed {
 				t.Note(fmt.Sprintf("phase B %s: all %d reference states reached (closure)", bp.v, len(hists)))
 			} else {
 				t.Note(fmt.Sprintf("phase B %s: the first %d reference states in breadth-first order (cap), longest shortest history %d", bp.v, len(hists), len(hists[len(hists)-1])))
 			}
-			for i := 0; i < len(hists); i += blockSize {
+			for i := 0; i < len(hists) && !t.Stopped(); i += blockSize {
 				j := i + blockSize
 				if j > len(hists) {
 					j = len(hists)
@@ -1273,7 +1340,7 @@ func run(t *vlib.T) {
 	phaseA := func(late bool) {
 		for _, p := range plans(t.Thorough()) {
 			p := p
-			if p.late != late {
+			if p.late != late || !only(p.v) {
 				continue
 			}
 			var rec func(h []op)
